@@ -71,12 +71,14 @@ def run_minimize(case):
                                    solver_time_limit_sec=case.get('time_limit', 15),
                                    cut_size=case.get('cut_size', 5), cut_limit=case.get('cut_limit', 25))
     except Exception as e:  # noqa: BLE001
+        case['_closed_family'] = mw.family_is_closed() if mw.LAST_FAMILY is not None else True
         tb = traceback.extract_tb(e.__traceback__)
         where = next((f'{f.name}:{f.line}' for f in reversed(tb) if 'cirbo' in f.filename), '?')
         fn = next((f.name for f in reversed(tb) if f.filename.endswith('subcircuit.py')), '?')
         return ('err', type(e).__name__, fn, where)
     finally:
         mw.FAMILY_RNG = None
+        case['_closed_family'] = mw.family_is_closed() if mw.LAST_FAMILY is not None else True
     return ('ok', ct.dump_circuit(out))
 
 
@@ -85,10 +87,12 @@ def oracle(case):
     res = run_minimize(case)
     if res[0] == 'err':
         if res[1] == 'FailedValidationError':
+            if not case.get('_closed_family', True):
+                return 'FailedValidationError (cut family not closed under sub-cuts): validation of the minimized circuit failed'
             return 'FailedValidationError: validation of the minimized circuit failed'
         if has_equivalent_gates(dump):
             return None      # internal errors are only excluded on circuits without equivalent gates
-        return f'internal error {res[1]} in {res[2]} ({res[3]})'
+        return f'internal error {res[1]}@{res[2]} ({res[3]})'
     out = res[1]
     if out['inputs'] != dump['inputs']:
         return f'inputs changed: {out["inputs"]} vs {dump["inputs"]}'
@@ -103,6 +107,8 @@ def oracle(case):
     except Exception as e:  # noqa: BLE001
         return f'result cannot be evaluated: {type(e).__name__}'
     if got != semoracle.truth_table_of(dump):
+        if not case.get('_closed_family', True):
+            return 'wrong function (cut family not closed under sub-cuts): truth table of the result differs'
         return 'wrong function: truth table of the result differs'
     n0 = ct.build_circuit(dump).gates_number()
     if oc.gates_number() > n0:
